@@ -114,6 +114,8 @@ fn run_case(seed: u64, idx: u64, all_rates: bool) -> CaseOut {
     let mut updates_since_start: Vec<u64> = vec![0; n_bars];
     let mut max_stale = 0u64;
     let mut nested = 0u64;
+    let mut episodes = 0u64;
+    let steady_episode = rng.chance(1, 3);
     let mut verdict = Verdict::Held;
     let feats = |extra: &str| {
         let mut f = vec![if limited { "limited-target".to_string() } else { "unlimited-target".to_string() }];
@@ -148,6 +150,23 @@ fn run_case(seed: u64, idx: u64, all_rates: bool) -> CaseOut {
         clock.fetch_add(g, Ordering::SeqCst);
         let now = clock.load(Ordering::SeqCst);
         let b = rng.usize(n_bars);
+        // ---- a steady-tick episode: the ticker is switched on and off again (disable joins the thread, so
+        // whatever it painted is on the terminal when the call returns). Afterwards the bar is an
+        // ordinary manually driven bar again: all laws below keep applying to it.
+        if !metronome && (opi == 0 && steady_episode || rng.chance(1, 400)) {
+            let before = spy.flushes();
+            bars[b].enable_steady_tick(std::time::Duration::from_secs(rng.range(1, 7200)));
+            if rng.chance(1, 2) {
+                bars[b].enable_steady_tick(std::time::Duration::from_secs(3600));
+            }
+            bars[b].disable_steady_tick();
+            for _ in 0..(spy.flushes() - before) {
+                frames.push(Frame { t: now, forced: false, update_of: None });
+                last_paint = Some(now);
+            }
+            episodes += 1;
+            continue 'ops;
+        }
         // ---- nested requests: update() takes its time stamp before running the closure; if other bars of
         // the same MultiProgress are redrawn inside the closure (after time has passed), update()'s own
         // redraw request reaches the shared limiter with a stamp OLDER than the limiter's last frame.
@@ -369,6 +388,7 @@ fn run_case(seed: u64, idx: u64, all_rates: bool) -> CaseOut {
     co.count("forced_frames", frames.iter().filter(|f| f.forced).count() as u64);
     co.count("skipped_requests", skipped);
     co.count("nested_update_requests_with_stale_stamp", nested);
+    co.count("steady_tick_on_off_episodes", episodes);
     co.max("staleness_ns", max_stale);
     co.max("window_excess_milliframes_over_RT", if max_excess > 0 { (max_excess / 1_000_000) as u64 } else { 0 });
     co.see("rates", rate as u64);
